@@ -1,7 +1,7 @@
 """Shared pieces of the scheme-level checks (C02, C03, C04): independent molecule normalisation, the driver input
 for `PGA.Scheme.getDescriptors`, the declarative interpretation of a scheme (spec oracle), and the canonical
 observation of the implementation."""
-import collections, os, warnings
+import collections, json, os, warnings
 from fractions import Fraction
 from rdkit import Chem
 from . import common
@@ -536,3 +536,48 @@ class FullTie(object):
                     ctx.count('corr_c02.full.aromatize')
                     if any(r['arom']):
                         ctx.count('corr_c02.full.aromatize_with_aromatic_ring')
+
+
+# ----------------------------------------------------------------------------- A-graph for mixtures (C04)
+def mixture_is_union(parts):
+    """Is RDKit's raw graph of the mixture 'A.B[.C…]' the disjoint union of the parts' raw graphs (`Mol.union`, atoms of each
+    part after those of the previous ones) renumbered by an explicit permutation π — the hypothesis `MolIso π (A ⊔ B) M` of
+    `C04_decompose_mixture`?  π is fixed by how RDKit builds the molecule (heavy atoms of all parts first, in order, then the
+    hydrogens `AddHs` appends, part by part).  Checked: atoms at π(i) identical; bonds identical as a multiset with the same
+    begin/end atoms (any order); rings renamed **in the same order**.  Returns (ok, detail); None when a graph is unavailable."""
+    gs = [raw_graph(p) for p in parts]
+    gm = raw_graph('.'.join(parts))
+    if gm is None or any(g is None for g in gs):
+        return None
+    heavy = []
+    for p in parts:
+        m = Chem.MolFromSmiles(p)
+        heavy.append(m.GetNumAtoms())
+    ns = [len(g['atoms']) for g in gs]
+    tot_heavy = sum(heavy)
+    pi, off = [], 0
+    h_before = 0      # hydrogens of earlier parts
+    hv_before = 0     # heavy atoms of earlier parts
+    for g, n, hv in zip(gs, ns, heavy):
+        for k in range(n):
+            pi.append(hv_before + k if k < hv else tot_heavy + h_before + (k - hv))
+        hv_before += hv
+        h_before += n - hv
+    if sorted(pi) != list(range(len(gm['atoms']))):
+        return False, 'pi is not a permutation of the mixture atoms'
+    atoms = [None] * len(pi)
+    bonds, rings, off = [], [], 0
+    for g, n in zip(gs, ns):
+        for k, a in enumerate(g['atoms']):
+            atoms[pi[off + k]] = a
+        bonds += [[pi[b[0] + off], pi[b[1] + off], b[2], b[3], b[4], [pi[s + off] for s in b[5]]] for b in g['bonds']]
+        rings += [[pi[x + off] for x in r] for r in g['rings']]
+        off += n
+    if atoms != gm['atoms']:
+        return False, 'atoms differ'
+    if rings != gm['rings']:
+        return False, 'rings differ (as an ordered list)'
+    key = json.dumps
+    if sorted(map(key, bonds)) != sorted(map(key, gm['bonds'])):
+        return False, 'bonds differ (as a multiset with orientation)'
+    return True, 'same bond order' if bonds == gm['bonds'] else 'bond order differs'
